@@ -267,5 +267,12 @@ def _unit_family(spec, kc, kl):
 @st.composite
 def any_dynamic(draw, **kw):
     spec = draw(st.one_of(dynamic_circuit(**kw), ladder_circuit()))
-    kc, kl = draw(st.sampled_from([(1.0, 1.0)] * 5 + [(1e-5, 1e-5), (1e-3, 1e-6), (1e-6, 1.0), (1.0, 1e-6)]))
+    kc, kl = draw(st.sampled_from([(1.0, 1.0)] * 5 + [(1e-5, 1e-5), (1e-3, 1e-6), (1e-6, 1.0), (1.0, 1e-6), ('int', 'int')]))
+    if kc == 'int':
+        # normalised prototypes (1 Ohm, 1 H, 2 F): values that are Python ints, as written in hand-made descriptions
+        for c in spec['components']:
+            for key, pool in (('C', [1, 2, 3]), ('L', [1, 2, 5]), ('R', [1, 2, 10]), ('V', [1, -2, 5]), ('I', [1, -1, 2])):
+                if key in c['args'] and draw(st.integers(0, 3)) > 0:
+                    c['args'][key] = draw(st.sampled_from(pool))
+        return spec
     return _unit_family(spec, kc, kl) if (kc, kl) != (1.0, 1.0) else spec
